@@ -369,11 +369,16 @@ theorem cjWhile_total (o : CjOps α) (ho : CjOrd o) {n : Nat} {sp sj tp tj : Arr
 /-- **`cljp_naive_splitting` terminates**: with an irreflexive and transitive `>` on the weights the selection loop ends within `n`
 passes, for `S`, `T` any two structurally valid patterns, and the whole run is in range -/
 theorem cljp_total (o : CjOps α) (ho : CjOrd o) (z : α) {n : Nat} {sp sj tp tj : Array Int} (hS : WFm (patS n sp sj) n)
-    (hT : WFm (patS n tp tj) n) (spl : Array Int) (hspl : spl.size = n) (colorflag : Int) (hcf : colorflag = 1 → 0 < n) (rnd : Array α) :
+    (hT : WFm (patS n tp tj) n) (spl : Array Int) (hspl : spl.size = n) (colorflag : Int) (rnd : Array α) :
     ∃ r, cljp o z n sp sj tp tj spl colorflag rnd n = some r ∧ Safe r (fun spl' => spl'.size = n) := by
   have hsz : sp.size = n + 1 := hS.ap_size
+  by_cases hn0 : n = 0
+  · have e : cljp o z n sp sj tp tj spl colorflag rnd n = some (pure spl) := by unfold cljp; rw [if_pos hn0]
+    exact ⟨_, e, Safe.pure hspl⟩
+  have hcf : colorflag = 1 → 0 < n := fun _ => by omega
   have hex : ∃ r, cljp o z n sp sj tp tj spl colorflag rnd n = some r := by
     unfold cljp
+    rw [if_neg hn0]
     simp only
     have hinit : Safe (do
         let nnz ← rd sp (n : Int)
@@ -409,6 +414,6 @@ theorem cljp_total (o : CjOps α) (ho : CjOrd o) (z : α) {n : Nat} {sp sj tp tj
     obtain ⟨r0, e0, _⟩ := cjWhile_total o ho hS hT n init (Safe.mono hinit (fun _ h => h.1)) (by rw [hinit.2.2]; omega)
     rw [e0]; exact ⟨_, rfl⟩
   obtain ⟨r, e⟩ := hex
-  exact ⟨r, e, cljp_safe o z hS hT spl hspl colorflag hcf rnd n r e⟩
+  exact ⟨r, e, cljp_safe o z hS hT spl hspl colorflag rnd n r e⟩
 
 end PyamgV.C17R4
